@@ -135,7 +135,10 @@ func (s *store) Delete(key string) (err error) {
 func (s *store) Iterate(prefix string, iterFunc storage.StateIterFunc) (err error) {
 	iter := s.db.Search(driver.Query{Prefix: driver.Key{Data: []byte(prefix)}, MatchPrefix: true})
 	defer func() {
-		err = iter.Close()
+		// do not let a successful Close hide the callback's or the cursor's error
+		if cerr := iter.Close(); err == nil {
+			err = cerr
+		}
 	}()
 	for ; iter.Valid(); iter.Next() {
 		stop, err := iterFunc(iter.Key(), iter.Value())
